@@ -277,7 +277,10 @@ _CONFIG_V3_YAML_TAG = 'tag:barectf.org,2020/3/config'
 #
 # All YAML maps are loaded as `collections.OrderedDict` objects.
 def _yaml_load(file: TextIO) -> Union[_ConfigNodeV3, _MapNode]:
-    class Loader(yaml.Loader):
+    # safe loader: the Python-specific tags (`!!python/object/apply`,
+    # `!!python/name`, ...) would build arbitrary objects, or call
+    # arbitrary functions, from the configuration file
+    class Loader(yaml.SafeLoader):
         pass
 
     def config_ctor(loader, node) -> _ConfigNodeV3:
